@@ -11,24 +11,32 @@
 \*        outside the allowed locations are rejections.
 \*  {"e":"obs","dest":"absent"|"old"|"new"|"other","strays":{"tmp":n,"sib":n,"parent":n,"other":n}}
 \*        the real directory tree after the run ended or was killed: the destination must be old or new and
-\*        nothing may be left outside the temporary locations; with Strict it must also be exactly
-\*        what the model derived from the system calls (conformance of the model, not a verdict).
+\*        nothing may be left outside the temporary locations; it should also be exactly what the model
+\*        derived from the system calls (otherwise "drift": conformance of the model, not a verdict).
 \*  {"e":"read","lo":a,"hi":b,"seen":g}
 \*        a concurrent reader read the destination while replacements a+1..b could be in flight
 \*        (a finished before the read began, b started before it ended) and found the complete content
 \*        of generation g (-1: no file although one was published, -2: none of the generations).
+\* A rejected event is reported (`@@` line: index of the trace line and the violated invariant) and the rest of
+\* that run is skipped, so that one TLC pass judges all runs; TLC registers 42 / 43 count the rejections and the
+\* runs in which the model and the observed tree differ without the property being violated ("drift":
+\* a defect of the model or the converter, never a verdict).  Accepted = every line consumed, no rejection, no drift.
 EXTENDS AtomicFile, Json
-
-CONSTANT Strict
 
 Trace == ndJsonDeserialize("trace.ndjson")
 
-VARIABLE l
-vars == <<ns, objs, ddest, pend, cfg, l>>
+VARIABLES l,     \* next trace line
+          bad    \* the current run has been rejected: its remaining lines are skipped
+vars == <<ns, objs, ddest, pend, cfg, l, bad>>
 
 NoCfg == [dest |-> <<"-">>, kind |-> "file", size |-> 0, entries |-> 1, old |-> "absent"]
 
-Init == l = 1 /\ InitFS(NoCfg, 0)
+Init == l = 1 /\ bad = FALSE /\ InitFS(NoCfg, 0) /\ TLCSet(42, 0) /\ TLCSet(43, 0)
+
+Snapshot == [view |-> DestView, tmp |-> Strays("tmp"), sib |-> Strays("sib"),
+             parent |-> Strays("parent"), other |-> Strays("other")]
+Report(kind, why, reg, snap) == /\ PrintT(<<"@@", ToJson([line |-> l, kind |-> kind, why |-> why, model |-> snap])>>)
+                                /\ TLCSet(reg, TLCGet(reg) + 1)
 
 New == /\ l <= Len(Trace) /\ Trace[l].e = "new"
        /\ LET ev == Trace[l]
@@ -40,7 +48,7 @@ New == /\ l <= Len(Trace) /\ Trace[l].e = "new"
                   /\ ddest' = 1
              ELSE /\ ns' = Empty /\ objs' = Empty /\ ddest' = 0
           /\ pend' = <<>>
-       /\ l' = l + 1
+       /\ l' = l + 1 /\ bad' = FALSE
 
 Apply(ev) ==
     CASE ev.op = "open"    -> OpenW(ev.path, ev.loc, ev.creat, ev.trunc)
@@ -55,9 +63,12 @@ Apply(ev) ==
 
 Why == IF ~DestOK THEN "DestOK" ELSE IF ~DurableOK THEN "DurableOK" ELSE IF ~TempLocOK THEN "TempLocOK" ELSE "-"
 
-Sys == /\ l <= Len(Trace) /\ Trace[l].e = "sys"
+Skip == /\ l <= Len(Trace) /\ bad /\ Trace[l].e # "new"
+        /\ l' = l + 1 /\ UNCHANGED <<ns, objs, ddest, pend, cfg, bad>>
+
+Sys == /\ l <= Len(Trace) /\ ~bad /\ Trace[l].e = "sys"
        /\ IF Trace[l].ok THEN Apply(Trace[l]) ELSE Nop
-       /\ IF Safe' THEN TRUE ELSE PrintT(<<"@@", ToJson([line |-> l, why |-> Why'])>>) /\ FALSE
+       /\ IF Safe' THEN bad' = FALSE ELSE Report("reject", Why', 42, Snapshot') /\ bad' = TRUE
        /\ l' = l + 1
 
 ObsProperty(ev) == ev.dest \in Allowed /\ ev.strays.other = 0
@@ -65,21 +76,20 @@ ObsConforms(ev) == /\ ev.dest = (IF DestView = "frag" THEN "other" ELSE DestView
                    /\ ev.strays.tmp = Strays("tmp") /\ ev.strays.sib = Strays("sib")
                    /\ ev.strays.parent = Strays("parent") /\ ev.strays.other = Strays("other")
 
-Obs == /\ l <= Len(Trace) /\ Trace[l].e = "obs"
-       /\ IF ObsProperty(Trace[l]) THEN TRUE
-          ELSE PrintT(<<"@@", ToJson([line |-> l, why |-> "Observed"])>>) /\ FALSE
-       /\ IF ~Strict \/ ObsConforms(Trace[l]) THEN TRUE
-          ELSE PrintT(<<"@@", ToJson([line |-> l, why |-> "Conformance", view |-> DestView,
-                       tmp |-> Strays("tmp"), sib |-> Strays("sib"), parent |-> Strays("parent"),
-                       other |-> Strays("other")])>>) /\ FALSE
+Obs == /\ l <= Len(Trace) /\ ~bad /\ Trace[l].e = "obs"
+       /\ IF ~ObsProperty(Trace[l]) THEN Report("reject", "Observed", 42, Snapshot) /\ bad' = TRUE
+          ELSE IF ~ObsConforms(Trace[l]) THEN Report("drift", "Conformance", 43, Snapshot) /\ bad' = FALSE
+          ELSE bad' = FALSE
        /\ l' = l + 1 /\ UNCHANGED fsvars
 
-Read == /\ l <= Len(Trace) /\ Trace[l].e = "read"
-        /\ Trace[l].seen >= Trace[l].lo /\ Trace[l].seen <= Trace[l].hi
-        /\ l' = l + 1 /\ UNCHANGED fsvars
+\* a read is reported and the run goes on: every bad read of a run is listed
+Read == /\ l <= Len(Trace) /\ ~bad /\ Trace[l].e = "read"
+        /\ IF Trace[l].seen >= Trace[l].lo /\ Trace[l].seen <= Trace[l].hi THEN TRUE
+           ELSE Report("reject", "ReaderOK", 42, Snapshot)
+        /\ l' = l + 1 /\ UNCHANGED <<ns, objs, ddest, pend, cfg, bad>>
 
-Next == New \/ Sys \/ Obs \/ Read
+Next == New \/ Skip \/ Sys \/ Obs \/ Read
 Spec == Init /\ [][Next]_vars
 
-Accepted == TLCGet("stats").diameter - 1 = Len(Trace)
+Accepted == TLCGet("stats").diameter - 1 = Len(Trace) /\ TLCGet(42) = 0 /\ TLCGet(43) = 0
 ====
